@@ -97,6 +97,9 @@ def run(rep, tier, seed):
                        "violation")
     SC.model_and_replay(rep, "r", spec_grid(tier), "c10_spec_" + tier,
                         ["DeadlockFree", "NullIsLast", "QueueBounded", "Accounted"], liveness=True, key="spec")
+    # the resynchronisation scan at the end of a stream must end (exception / failed stream), never spin
+    from checks import c09
+    c09.resync_part(rep, tier)
     # enumeration on the real code
     scs = base_scenarios(tier)
     exe, scen, descs = SC.prepare("r", scs, "c10_H_" + tier, variant="asan")
